@@ -82,6 +82,13 @@ def enumerated(tier, seed):
     for mode, k in ((2, 0), (2, 0xFF), (3, 7)):
         yield dict(kind="cas", level="virtualfile", steps=[[_big_file(65535, k, mode, "A"), _big_file(65535, k, mode, "B")],
                                                          [_big_file(65535, k, mode, "C")], [_big_file(10, 1, 0, "D")]])
+    # a disk filled one granule at a time to its 68 files (17 per session): every one of them must keep listing
+    def tiny(i):
+        kind = ("ml", "basic", "ascii")[i % 3]
+        ftype, dtype = {"ml": (2, 0), "basic": (0, 0), "ascii": (0, 0xFF)}[kind]
+        return dict(name="T%d" % i, ext="BIN", kind=kind, ftype=ftype, dtype=dtype, load=0x1000, exec=0x1000, data=dict(n=15 + i, k=i, mode=0, head="", tail=""))
+    for level in ("virtualfile", "container"):
+        yield dict(kind="dsk", level=level, order=None, steps=[[tiny(i) for i in range(j, j + 17)] for j in (0, 17, 34, 51)])
     # tapes of >= 161,280 bytes whose total length is a multiple of 256 (a whole number of disk sectors), zero filled:
     # the last file's length is chosen so that the image written by the independent writer has such a length
     from checks import c10
